@@ -30,7 +30,7 @@ def new_fn(name, kind, refs=(), hidden=(), explicit=None, cluster="vz"):
 
 
 def random_prog(r, nmem=3, nplain=2, nvar=2, hidden_p=0.15, forms=("bare", "bare", "attr", "alias"), acyclic=True,
-                init_p=0.0, twins_p=0.0, late_p=0.0, shapes_p=0.0, factory_p=0.0, deco_p=0.0, lambdas_p=0.0):
+                init_p=0.0, twins_p=0.0, late_p=0.0, shapes_p=0.0, factory_p=0.0, deco_p=0.0, lambdas_p=0.0, setdict_p=0.0):
     names = ["m%d" % i for i in range(1, nmem + 1)] + ["h%d" % i for i in range(1, nplain + 1)]
     vars_ = ["v%d" % i for i in range(1, nvar + 1)]
     nodes = []
@@ -74,6 +74,11 @@ def random_prog(r, nmem=3, nplain=2, nvar=2, hidden_p=0.15, forms=("bare", "bare
         for c in ("K1", "K2"):
             nodes.append(dict(new_fn(c + ".sm", "plain"), cls=c))
             user["refs"].append({"to": c + ".sm", "form": "bare"})
+    # a table whose insertion order (not its value) depends on the hash seed: built by iterating over a set
+    if r.random() < setdict_p:
+        nodes.append({"name": "vs", "kind": "var", "val": {"ka": 2, "kbb": 3, "kccc": 4, "kdddd": 5, "keeeee": 6}, "fromset": True})
+        for u in r.sample([n for n in fns if n.get("where") != "init"], min(2, len(fns))):
+            u["refs"].append({"to": "vs", "form": "bare"})
     # two module-level lambdas used by one function
     if r.random() < lambdas_p:
         user = r.choice([n for n in fns if n.get("where") != "init"])
@@ -92,8 +97,14 @@ def random_prog(r, nmem=3, nplain=2, nvar=2, hidden_p=0.15, forms=("bare", "bare
     if shapes_p:
         for n in fns:
             for q in n["refs"]:
-                if r.random() < shapes_p:
+                if r.random() < shapes_p and q["to"] != "vs":      # (the text of `vs` depends on the hash seed, its value does not)
                     q["shape"] = r.choice(SHAPES)
+    # (a program with a set-built table must not turn values into text: the text would depend on the hash seed)
+    if any(n.get("fromset") for n in nodes):
+        for n in fns:
+            for q in n["refs"]:
+                if q.get("shape") in ("strarg", "fstr", "chain"):
+                    q["shape"] = "index"
     # a table created empty and filled in place after the definitions
     if r.random() < late_p:
         v = {"name": "vl", "kind": "var", "val": r.choice([[1, 2], {"a": 1}, [3], {"vat": 20, "x": [1]}]), "late": True}
@@ -248,7 +259,9 @@ def module_source(prog, twin=False, order=None):
         fns = sorted(fns, key=lambda n: order.index(n["name"]) if n["name"] in order else 99)
     for n in prog["nodes"]:
         if n["kind"] == "var":
-            if n.get("late"):
+            if n.get("fromset"):
+                out.append("%s = {k: len(k) for k in %s}\n" % (n["name"], "{" + ", ".join(repr(k) for k in sorted(n["val"])) + "}"))
+            elif n.get("late"):
                 out.append("%s = %r\n" % (n["name"], type(n["val"])()))
             else:
                 out.append("%s = %r\n" % (n["name"], n["val"]))
